@@ -51,7 +51,7 @@ type Transport interface {
 // - in all other cases a XMPPTransport is used
 // For XMPPTransport it is mandatory for the address to have a port specified.
 func NewClientTransport(config TransportConfiguration) Transport {
-	if strings.HasPrefix(config.Address, "ws:") || strings.HasPrefix(config.Address, "wss:") {
+	if isWebsocketAddress(config.Address) {
 		return &WebsocketTransport{Config: config}
 	}
 
@@ -66,7 +66,7 @@ func NewClientTransport(config TransportConfiguration) Transport {
 // Only XMPP transports are allowed. If you try to use any other protocol an error
 // will be returned.
 func NewComponentTransport(config TransportConfiguration) (Transport, error) {
-	if strings.HasPrefix(config.Address, "ws:") || strings.HasPrefix(config.Address, "wss:") {
+	if isWebsocketAddress(config.Address) {
 		return nil, fmt.Errorf("components only support XMPP transport: %w", ErrTransportProtocolNotSupported)
 	}
 
@@ -75,4 +75,16 @@ func NewComponentTransport(config TransportConfiguration) (Transport, error) {
 		Config:        config,
 		openStatement: componentStreamOpen,
 	}, nil
+}
+
+// hasURLScheme reports whether addr is a URL with the given scheme, that is whether
+// it starts with the scheme followed by "://". A plain "host:port" whose host is
+// named like a scheme ("ws:5222") is not a URL.
+func hasURLScheme(addr, scheme string) bool {
+	return strings.HasPrefix(addr, scheme+"://")
+}
+
+// isWebsocketAddress reports whether addr is a ws:// or wss:// URL.
+func isWebsocketAddress(addr string) bool {
+	return hasURLScheme(addr, "ws") || hasURLScheme(addr, "wss")
 }
